@@ -885,6 +885,9 @@ class Prop(Check):
         "Tx.C02_compile_list_iff",
         "Tx.C02_rule_root_bridge",
         "Tx.C02_tx_pinned_walk_false",
+        "Mult.Ref.C02_ref_any_order",
+        "Mult.Ref.C02_ref_history",
+        "Mult.Ref.C02_ref_stale_false",
     ]
     DRIVER = "Drivers/Mult.lean"
     QUICK_CASES = 300
@@ -1086,6 +1089,7 @@ class Prop(Check):
                         ev["vs"] = [tree_value(c[0], objs)]
                         if isref:
                             refpos.append(c[0].position)
+                            ev["rpos"] = [c[0].position]
                     elif op == "?=":
                         ev["vs"] = [prim(True)]
                     else:
@@ -1097,7 +1101,8 @@ class Prop(Check):
                         # the values, by the text: children that are value tokens or contained objects
                         ev["vs"] = [k["v"] for k in ev["kids"] if k["kind"] in ("val", "obj")]
                         if isref:
-                            refpos.extend(x.position for x in c if kid_kind(x) == "val")
+                            ev["rpos"] = [x.position for x in c if kid_kind(x) == "val"]
+                            refpos.extend(ev["rpos"])
                     rec["trace"].append(ev)
                 elif isinstance(c, NonTerminal) and c.rule_name in rule_names:
                     # an object that is matched but assigned nowhere (not generated)
@@ -1227,8 +1232,27 @@ class Prop(Check):
                                   "kids": [{"r": k["r"], "t": truthy(k["v"]), "v": k["v"]} for k in e["kids"]]})
                 else:
                     trace.append({"a": idx[e["a"]], "op": e["op"], "vs": [{"t": truthy(v), "v": v} for v in e["vs"]]})
-            req["objs"].append({"rule": ridx[o["rule"]], "trace": trace})
+            ob = {"rule": ridx[o["rule"]], "trace": trace}
+            rl = self._ref_lists(obs, ti, o)
+            if rl:
+                ob["refs"] = [{"n": max([r["d"] for r in refs] + [0]), "refs": refs} for _, refs in rl]
+            req["objs"].append(ob)
         return req
+
+    def _ref_lists(self, obs, ti, o):
+        """[(attribute, [{"d", "p", "v"} …])] — the reference lists of the tree object `o` of text `ti`: per list
+        attribute that holds references, the references in the order `process_node` records them, each with the
+        number of resolution steps in which the scope provider first answers Postponed."""
+        t = obs["texts"][ti]
+        if not t.get("refs"):
+            return []
+        delay = {q: d for q, d in t["refs"]}
+        mults = obs["grammar"]["ok"].get(o["rule"], {})
+        out = {}
+        for e in o["trace"]:
+            if e.get("ref") and mults.get(e["a"]) in MANY and len(e.get("rpos", [])) == len(e["vs"]):
+                out.setdefault(e["a"], []).extend({"d": delay.get(q, 0), "p": q, "v": v} for q, v in zip(e["rpos"], e["vs"]))
+        return sorted(out.items())
 
     # ---- correspondence --------------------------------------------------
     def compare(self, case, obs, out):
@@ -1288,6 +1312,11 @@ class Prop(Check):
                 x = real.get((o["rule"], o["pos"]))
                 if x is None:
                     return f"text {ti}: object {o['rule']}@{o['pos']} of the parse tree is not in the model"
+                # reference lists: the resolver model replayed with this text's history vs the real list
+                for (a, _), ml in zip(self._ref_lists(obs, ti, o), mo.get("reflists") or []):
+                    if x["attrs"].get(a) != ml:
+                        return (f"text {ti}: reference list {o['rule']}@{o['pos']}.{a} = {x['attrs'].get(a)} (implementation) "
+                                f"vs {ml} (resolver model, history {t.get('refs')})")
                 attrs = rules[ridx[o["rule"]]][2]
                 for a, slot in zip(attrs, mo["store"]["ok"]):
                     v = x["attrs"].get(a)
@@ -1405,9 +1434,14 @@ class Prop(Check):
              "grammars_with_rule_modifiers": 0, "rules_with_modifiers_by_root": {}, "rules_root_wrapped_model": 0,
              "rules_root_wrapped_agreement": [0, 0], "texts_accepted_in_noskipws_grammars": 0,
              "grammars_with_memoization": 0, "grammars_with_redundant_parentheses": 0,
-             "grammars_with_metamodel_noskipws": 0, "contained_rules_without_keyword_by_root": {}}
+             "grammars_with_metamodel_noskipws": 0, "contained_rules_without_keyword_by_root": {},
+             "grammars_with_references": 0, "texts_with_references": 0, "references": 0, "references_postponed": 0,
+             "texts_with_postponed_before_direct_reference": 0, "reference_lists_2plus": 0,
+             "reference_lists_checked_by_resolver_model": 0}
         d["exact_multiplicity_agreement"] = [0, 0]
         for c, o, mo in zip(cases, obs, outs):
+            if isinstance(mo, dict):
+                d["reference_lists_checked_by_resolver_model"] += sum(len(x.get("reflists") or []) for x in mo.get("objs", []))
             if isinstance(o, dict) and "ok" in o.get("grammar", {}) and isinstance(mo, dict) and "rules" in mo:
                 for (r, _, attrs, _), ro in zip(self._rules(c), mo["rules"]):
                     for a, mm_ in zip(attrs, ro["mults"]):
@@ -1428,6 +1462,7 @@ class Prop(Check):
                 d["grammars_with_eolterm"] += has_eol(c)
                 d["grammars_with_rule_modifiers"] += bool(c.get("params"))
                 d["grammars_with_memoization"] += bool(c.get("memo"))
+                d["grammars_with_references"] += uses_refs(c)
                 d["grammars_with_metamodel_noskipws"] += c.get("mm_skipws") is False
                 if c.get("sub_bare"):
                     key = rule_body(c, "Sub")["k"]
@@ -1450,6 +1485,19 @@ class Prop(Check):
                 d["texts_mutated"] += tc.get("origin") == "mutated"
                 p = t.get("parse", {})
                 d["watchdog"] += p.get("other") == "Watchdog" or t.get("model", {}).get("other") == "Watchdog"
+                if "ok" in p and t.get("refs"):
+                    rs = sorted(t["refs"])
+                    d["texts_with_references"] += 1
+                    d["references"] += len(rs)
+                    d["references_postponed"] += sum(1 for _, dl in rs if dl)
+                    d["texts_with_postponed_before_direct_reference"] += any(
+                        dl > rs[j][1] for i, (_, dl) in enumerate(rs) for j in range(i + 1, len(rs)))
+                    for ob in p["ok"]["objs"]:
+                        per = {}
+                        for e in ob["trace"]:
+                            if e.get("ref"):
+                                per[e["a"]] = per.get(e["a"], 0) + len(e["vs"])
+                        d["reference_lists_2plus"] += sum(1 for k_ in per.values() if k_ >= 2)
                 if "ok" in p:
                     d["texts_accepted"] += 1
                     d["texts_accepted_in_noskipws_grammars"] += c.get("mm_skipws") is False or any(
